@@ -17,7 +17,7 @@ CONSTANTS NP, NS
 VARIABLES sc
 Step(i) == {<<"to", d, d + 5>> : d \in 0..2} \cup {<<"wait", e>> : e \in 1..2}
            \cup {<<"succ", e, 7>> : e \in 1..2} \cup {<<"fail", 1>>}
-           \cup {<<"all", 1, 2>>, <<"all", 1, 1>>, <<"any", 2, 1>>, <<"any", 1, 2>>, <<"native", 1>>}
+           \cup {<<"all", 1, 2>>, <<"all", 1, 1>>, <<"any", 2, 1>>, <<"any", 1, 2>>, <<"native", 1>>, <<"dall", 1, 2>>, <<"dwait", 1>>}
            \cup {<<"proc", k>> : k \in (1..NP) \ {i}} \cup {<<"intr", k, 40 + i>> : k \in (1..NP) \ {i}}
 Init == \E n \in 1..NP : \E until \in {0, 2, 11} :
           \E ps \in [1..n -> UNION {[1..m -> UNION {Step(i) : i \in 1..NP}] : m \in 1..NS}] :
